@@ -155,8 +155,29 @@ def generate(rng: random.Random, tier: str) -> dict:
         n_pool += 1
 
     nsteps = rng.randint(3, 25 if tier == "thorough" else 18)
-    style = rng.choice(["mixed", "mixed", "crs-heavy", "composite-heavy", "gadget"])
+    style = rng.choice(["mixed", "mixed", "crs-heavy", "composite-heavy", "gadget", "gadget", "flood"])
     add_crs(_draw_crs_spec(rng))
+    if style == "flood":
+        # bounded-cache gadget: transformer(a, b); drop a; flood the construction cache with n
+        # never-seen specs (n straddles common cache bounds); then fresh CRSs ask for transformers
+        a = _draw_crs_spec(rng)
+        while a[1] not in TRANSFORM_CODES or a[2] in ("copy", "pickle"):
+            a = _draw_crs_spec(rng)
+        b = ["crs", rng.choice(TRANSFORM_CODES), rng.choice(["int", "EPSG", "wkt2019"])]
+        steps.clear()
+        crs_slots.clear()
+        n_pool = 0
+        add_crs(b)
+        add_crs(a)
+        xy = rng.random() < 0.6
+        steps.append(["transform", 1, 0, xy])
+        steps.append(["drop", 1])
+        crs_slots.remove(1)
+        steps.append(["gc"])
+        steps.append(["flood", rng.choice([20, 70, 140, 140, 270, 530, 1100]), 0, xy])
+        steps.append(["gc"])
+        steps.append(["churn", rng.sample(CHURN_CODES, rng.choice([2, 4, 8])), 0, xy])
+        nsteps = len(steps) + rng.randint(0, 4)
     while len(steps) < nsteps and n_pool < 16:
         r = rng.random()
         if style == "gadget" and len(steps) < nsteps - 6 and rng.random() < 0.5:
@@ -427,10 +448,12 @@ class History:
             "known_class_violations": 0,
             "gadget_histories": 0,
             "pairs_checked": 0,
+            "flood_constructions": 0,
         }
         self.steps_done = 0
         self.switches = 0
         self.sim_ids = SimIds(self)
+        self.n_flood = 0
         self._lock_contended_seen = 0
 
     # ---- reporting
@@ -658,10 +681,37 @@ class History:
                     if other is not None and other["kind"] == "crs":
                         self.check_transform(e, other, bool(step[3]), quiet=True)
                 self.ch.count("churn", len(step[1]))
+            elif op == "flood":
+                self.flood(int(step[1]), self.pool.get(step[2]), bool(step[3]))
             elif op == "race":
                 self.race(step[1])
             else:
                 raise HarnessError(f"unknown step {op}")
+
+    def flood(self, n: int, other: Optional[Dict[str, Any]], xy: bool) -> None:
+        """Construct n never-seen CRSs (nothing keeps them but the library's own cache); every
+        16th asks for its transformer towards ``other`` and is checked against pyproj."""
+        import numpy as np
+        import pyproj
+        from odc.geo.crs import CRS
+
+        for i in range(n):
+            self.n_flood += 1
+            lon0 = 20 + self.n_flood * 0.01
+            spec = f"+proj=tmerc +lat_0=0 +lon_0={lon0:.2f} +k=0.9996 +x_0=500000 +y_0=0 +datum=WGS84 +units=m +no_defs +type=crs"
+            c = CRS(spec)
+            if i % 16 != 15 or other is None or other["kind"] != "crs" or other.get("code") not in REF["probe_xy"]:
+                continue
+            x, y = 500000.0, 1200000.0
+            got = c.transformer_to_crs(other["value"], always_xy=xy)(x, y)
+            opp = REF["specs"][other["code"]]["pp"]
+            want = pyproj.Transformer.from_crs(pyproj.CRS.from_user_input(spec), opp, always_xy=xy).transform(x, y)
+            self.probes["transformer_checks"] += 1
+            tol = 1e-5 if opp.is_geographic else 1.0
+            if not all(np.isfinite(g) and abs(g - w) <= tol for g, w in zip(got, want)):
+                self.report("O19.5", "transformer-converts-between-other-systems", {"src": f"fresh tmerc lon_0={lon0:.2f} (flood #{i})", "dst": other.get("spec"), "always_xy": xy, "got": [float(g) for g in got], "want": [float(w) for w in want]})
+        self.ch.count("flood", n)
+        self.probes["flood_constructions"] += n
 
     def race(self, specs: List[List[Any]]) -> None:
         import cachetools._cached as CC
@@ -906,7 +956,7 @@ def _drop_step(steps: List[List[Any]], i: int) -> Optional[List[List[Any]]]:
             s[3] = ren(s[3])
             if s[3] == -1:
                 s[3] = None
-        elif s[0] == "churn":
+        elif s[0] in ("churn", "flood"):
             s[2] = ren(s[2])
             if s[2] == -1:
                 continue
@@ -936,6 +986,12 @@ def candidates(record: dict) -> Iterable[dict]:
     for i, s in enumerate(steps):
         if s[0] == "race" and len(s[1]) > 2:
             pass
+        if s[0] == "flood" and s[1] > 1:
+            for nv in sorted({1, s[1] // 2, s[1] - 1}):
+                if nv < s[1]:
+                    c = copy.deepcopy(record)
+                    c["workload"]["steps"][i][1] = nv
+                    yield c
         if s[0] == "churn" and len(s[1]) > 1:
             c = copy.deepcopy(record)
             c["workload"]["steps"][i][1] = s[1][: len(s[1]) // 2]
